@@ -1,9 +1,9 @@
 SPECIFICATION Spec
 CONSTANTS
-  Threads = {1, 2, 3}
-  MaxEvents = 3
+  Threads = {1, 2}
+  MaxEvents = 4
   MaxDepth = 2
-  Ordered = TRUE
+  Ordered = FALSE
   Exits = TRUE
 INVARIANTS TypeOK RecNested Bounded PrecOK SaveExpAgrees AcceptLaw RejectLaw NestLaw EquivLaw AltLaw EmptyLaw
 CHECK_DEADLOCK FALSE
